@@ -410,6 +410,8 @@ type wop struct {
 type errAfterReader struct {
 	b   []byte
 	end error // nil = io.EOF
+	// together: the last piece of data is returned with the end (n > 0, err != nil) as io.Reader allows
+	together bool
 }
 
 var errSource = errors.New("harness: the source of ReadFrom fails")
@@ -423,6 +425,12 @@ func (r *errAfterReader) Read(p []byte) (int, error) {
 	}
 	n := copy(p, r.b)
 	r.b = r.b[n:]
+	if r.together && len(r.b) == 0 {
+		if r.end != nil {
+			return n, r.end
+		}
+		return n, io.EOF
+	}
 	return n, nil
 }
 
@@ -480,7 +488,7 @@ func runWriter(c *mc.Ctx, ops []Op, failAt int, transient, report bool, impl str
 				return
 			}
 			want = append(want, d...)
-		case "readfrom", "readfromerr":
+		case "readfrom", "readfromerr", "readfromtog":
 			d := fill(o.N)
 			rf, ok := conn.(io.ReaderFrom)
 			if !ok {
@@ -489,6 +497,9 @@ func runWriter(c *mc.Ctx, ops []Op, failAt int, transient, report bool, impl str
 			src := &errAfterReader{b: append([]byte(nil), d...)}
 			if o.K == "readfromerr" {
 				src.end = errSource
+			}
+			if o.K == "readfromtog" {
+				src.together = true
 			}
 			n, err := rf.ReadFrom(src)
 			if o.K == "readfromerr" && err == nil {
@@ -559,6 +570,8 @@ func writerSeqs(depth int) [][]Op {
 	al = append(al, Op{"malloc", 8193}, Op{"readfrom", 20000})
 	// copies whose source fails after some bytes
 	al = append(al, Op{"readfromerr", 0}, Op{"readfromerr", 200}, Op{"readfromerr", 4096})
+	// a source that hands over its last piece together with io.EOF
+	al = append(al, Op{"readfromtog", 1}, Op{"readfromtog", 5000})
 	al = append(al, Op{K: "flush"})
 	var out [][]Op
 	var rec func(p []Op)
